@@ -129,9 +129,11 @@ def _leaf_grid(pid):
         cnt = []
         fails = rt.rt_leaf_grid(pid, count=cnt)
         fails += rt.rt_spline_grid(pid, count=cnt)
+        if pid in ("C01", "C02"):
+            fails += rt.rt_zoo_B(pid, count=cnt)
         cnt = [sum(cnt)]
         return dict(evaluations=cnt[0], distinct_nontrivial=cnt[0],
-                    rule="real RationalQuadraticSpline (trained-like perturbed raw parameters, intervals with and without 0) at every knot / interval end / float neighbour / bin midpoint / outside point, and real elementwise leaf bijections (float64) x parameter sets (positive/negative/small/large scales, several max_val) x boundary-directed points (0, +-1, +-max_val, +-tanh(max_val), their float neighbours, 1e-8, 1e4); each (class, params, point) is distinct",
+                    rule="real RationalQuadraticSpline (trained-like perturbed raw parameters, intervals with and without 0) at every knot / interval end / float neighbour / bin midpoint / outside point, contract B (round trips, same point, log-det vs autodiff slogdet, inverse log-det) on an object zoo of EVERY buildable bijection class incl. combinators and structured layers, and real elementwise leaf bijections (float64) x parameter sets (positive/negative/small/large scales, several max_val) x boundary-directed points (0, +-1, +-max_val, +-tanh(max_val), their float neighbours, 1e-8, 1e4); each (class, params, point) is distinct",
                     samples=[dict(cls="LeakyTanh", params=dict(max_val=3.0), point=3.0)], failures=fails[:5], errors=[])
     return g
 
@@ -153,8 +155,10 @@ def _shape_grid(pid):
     def g(tier, seed):
         cnt = []
         fails = rt.rt_shapes_grid(count=cnt)
+        fails += rt.rt_c08_definitions(count=cnt)
+        cnt = [sum(cnt)]
         return dict(evaluations=cnt[0] if cnt else 0, distinct_nontrivial=cnt[0] if cnt else 0,
-                    rule="real Stack / Concatenate / Vmap / Reshape on an exhaustive small lattice: child ranks 0-3, EVERY valid axis incl. negative ones, cond ranks 0-2, rank-0 reshape targets; declared shape vs jnp.stack/jnp.concatenate/vmap semantics and all four methods called with inputs of the declared shapes",
+                    rule="combinators vs a reference interpreter of their definitions over the children's own methods (Chain, slicing, merge_chains, Scan==Chain, Vmap mapped/broadcast, Stack/Concatenate every axis, Partial index kinds, Invert, Reshape, EmbedCondition); real Stack / Concatenate / Vmap / Reshape on an exhaustive small lattice: child ranks 0-3, EVERY valid axis incl. negative ones, cond ranks 0-2, rank-0 reshape targets; declared shape vs jnp.stack/jnp.concatenate/vmap semantics and all four methods called with inputs of the declared shapes",
                     samples=[dict(cls="Stack", s0=[2, 3], axis=-1)], failures=fails[:5], errors=[])
     return g
 
